@@ -3,7 +3,7 @@ NOT_APPLICABLE = {}
 META = {
     "C20": dict(
         engine="E1 ipinfo + E7 metrics",
-        technique="Lean 4 theorems on the classification model (label decided by class alone, in the stated order; database consulted only for global-unicast addresses; one label per address across collectors) and decide over the regenerated metric table (provenance class of every label value, label names, value classes); differential correspondence with GetIPInfoFromAddr/IP and the real collectors; exposition scan",
+        technique="Lean 4 theorems on the classification model (label decided by class alone, in the stated order; database consulted only for global-unicast addresses; one label per address across collectors) and decide over the regenerated metric table (provenance class of every label value, label names, value classes); differential correspondence with GetIPInfoFromAddr/IP and the real collectors; exposition scan; the functions themselves are TRANSLATED from the Go source into Lean on every run (extract/golean.go -> Gen/Code.lean, do-blocks in the Option monad over the run-time prelude Model/GoRT.lean) and proved, for all inputs, never to panic and to do what the hand model does (Proofs/Tie*.lean), so the theorems are re-checked against what the source says now (GetIPInfoFromIP with the database as a parameter)",
         text="Kernel-checked: XA / empty / XL / XD / ZZ / database answer are decided in that order by the class of the address; non-global addresses never reach the database; over the whole generated table no label value derives from a client address or from an unclassifiable expression, label names are the fixed set, values are numeric counts/durations.",
         note="Proof over generated table + model; the provenance analysis (extractor) is trusted and backed by scanning the real exposition for every textual form of distinctive client addresses and ports.",
     ),
@@ -39,9 +39,9 @@ META = {
     ),
     "C17": dict(
         engine="E7 metrics",
-        technique="Lean 4 refinement proof: the tunnel-time bookkeeping model (reference counts, period restart on scrape, report on last close) against an independent per-client specification (time accrues exactly while depth>0), by induction over arbitrary op histories with a non-decreasing clock; differential correspondence with the real Prometheus collectors under a stubbed clock",
+        technique="Lean 4 refinement proof: the tunnel-time bookkeeping model (reference counts, period restart on scrape, report on last close) against an independent per-client specification (time accrues exactly while depth>0), by induction over arbitrary op histories with a non-decreasing clock; differential correspondence with the real Prometheus collectors under a stubbed clock; the functions themselves are TRANSLATED from the Go source into Lean on every run (extract/golean.go -> Gen/Code.lean, do-blocks in the Option monad over the run-time prelude Model/GoRT.lean) and proved, for all inputs, never to panic and to do what the hand model does (Proofs/Tie*.lean), so the theorems are re-checked against what the source says now (tunnelTimeMetrics.startConnection / stopConnection / reportTunnelTime / Collect: pointer-valued map entries with write-back and nil flags, the two counter vectors as an effect log; simulation relation preserved by every operation; the refinement theorem restated over histories of the translated operations)",
         text="Kernel-checked for every history: reported per-key seconds after a scrape = sum over client IPs of the covered time; reported+pending = covered at every point (nothing lost or doubled across scrapes); active iff depth>0 (overlaps counted once); clients that never start contribute zero; per-location sum = per-key sum.",
-        note="Trusted: Lean kernel, hand model validated by the metrics campaign, the hook that stubs the clock. Matching of stops to starts rests on C15/C16.",
+        note="Trusted: Lean kernel, hand model validated by the metrics campaign, the hook that stubs the clock. Matching of stops to starts rests on C15/C16. Translated code: trusted are the translator and the prelude GoRT (Go maps as association lists — the tie does not depend on iteration order —, Duration.Seconds() kept in nanoseconds).",
     ),
     "C02": dict(
         engine="E3 tcp",
@@ -93,9 +93,9 @@ META = {
     ),
     "C14": dict(
         engine="E4 udp + natconn",
-        technique="Lean 4 invariants over write/read histories with a logical clock (J: socket deadline in sync or expired; A: fast-close latch), generated 17 s / port 53 constants; tied by differential correspondence with the real natconn over a recording PacketConn and the real handler",
+        technique="Lean 4 invariants over write/read histories with a logical clock (J: socket deadline in sync or expired; A: fast-close latch), generated 17 s / port 53 constants; tied by differential correspondence with the real natconn over a recording PacketConn and the real handler; the functions themselves are TRANSLATED from the Go source into Lean on every run (extract/golean.go -> Gen/Code.lean, do-blocks in the Option monad over the run-time prelude Model/GoRT.lean) and proved, for all inputs, never to panic and to do what the hand model does (Proofs/Tie*.lean), so the theorems are re-checked against what the source says now (natconn.onWrite / onRead: SetReadDeadline calls as an effect log, time.Now and isDNS as parameters; simulation relation with the model's ghost counters)",
         text="Kernel-checked: every client datagram handled on a live or new association leaves the socket deadline >= now+timeout (non-DNS) / now+17 s (DNS) for any configured timeout; client datagrams never move the deadline earlier; fast close fires iff the latch is armed and the response is from the DNS port, the latch being armed only after at most one DNS query; removal reported exactly once, socket closed, entry removed.",
-        note="Partial for real time: 'within bounded time' and 'promptly' are observed by the campaigns (shutdown expires all associations, fast close within 1.5 s), not proved. Trusted: Lean kernel, hand models, verif hook file.",
+        note="Partial for real time: 'within bounded time' and 'promptly' are observed by the campaigns (shutdown expires all associations, fast close within 1.5 s), not proved. Trusted: Lean kernel, hand models, verif hook file. Translated code: trusted are the translator and the prelude GoRT (time as integer nanoseconds, sync.Once as a flag).",
     ),
     "C16": dict(
         engine="E4 udp",
@@ -111,14 +111,14 @@ META = {
     ),
     "C05": dict(
         engine="E1 bytes/addr (ip)",
-        technique="Lean 4 theorems over all 4-byte, IPv4-mapped and 16-byte values (byte-mask lemmas by kernel evaluation over 256 values, then grind); model tied by differential correspondence with onet.RequirePublicIP and a numeric-range oracle",
+        technique="Lean 4 theorems over all 4-byte, IPv4-mapped and 16-byte values (byte-mask lemmas by kernel evaluation over 256 values, then grind); model tied by differential correspondence with onet.RequirePublicIP and a numeric-range oracle; the functions themselves are TRANSLATED from the Go source into Lean on every run (extract/golean.go -> Gen/Code.lean, do-blocks in the Option monad over the run-time prelude Model/GoRT.lean) and proved, for all inputs, never to panic and to do what the hand model does (Proofs/Tie*.lean), so the theorems are re-checked against what the source says now (RequirePublicIP, IsPrivateAddress over the generated CIDR table; the net.IP predicates IsGlobalUnicast / IPNet.Contains are the prelude's model of the standard library)",
         text="Kernel-checked equivalence between the model of RequirePublicIP (over the CIDR table regenerated from source) and an independent numeric-range specification of the forbidden blocks, for every IPv4/IPv6/mapped/odd-length value; the model is run against the real function on block boundaries and 10^5 addresses per quick run.",
         note="Trusted: Lean kernel, hand model of Go's net.IP predicates (validated differentially), extractor for the CIDR literals; hostname resolution is an oracle; the dial paths are covered by the handler models (C03/C04 engines) and wiring facts.",
     ),
     "C07": dict(
         engine="E2 auth (replay)",
-        technique="Lean 4 theorems by induction over Add/Resize histories (invariant `Safe`), model tied by differential correspondence with the real ReplayCache and a sliding-window oracle",
+        technique="Lean 4 theorems by induction over Add/Resize histories (invariant `Safe`), model tied by differential correspondence with the real ReplayCache and a sliding-window oracle; the functions themselves are TRANSLATED from the Go source into Lean on every run (extract/golean.go -> Gen/Code.lean, do-blocks in the Option monad over the run-time prelude Model/GoRT.lean) and proved, for all inputs, never to panic and to do what the hand model does (Proofs/Tie*.lean), so the theorems are re-checked against what the source says now (preHash incl. both loops, ReplayCache.Add, Resize, NewReplayCache; window theorem restated over runs of the translated Add)",
         text="Kernel-checked theorems over all histories of Add/Resize from any cache state (window, no spurious refusals, exactly one winner, capacity bound); the model is run against the real ReplayCache op by op on every check.",
-        note="Trusted: Lean kernel, the hand model of replay.go (validated by ~300k differential ops per quick run), extractor for MaxCapacity; Add/Resize atomicity comes from the C19 lock-set facts.",
+        note="Trusted: Lean kernel, the hand model of replay.go (validated by ~300k differential ops per quick run), extractor for MaxCapacity; Add/Resize atomicity comes from the C19 lock-set facts. Translated code: trusted are the translator (extract/golean.go) and the prelude GoRT (Go maps as association lists, checked indexing).",
     ),
 }
